@@ -42,6 +42,8 @@ func exec(t []string) string {
 			return "ok " + lib.Bool(a.Before(b))
 		}
 		return "ok " + lib.Bool(a.After(b))
+	case t[0] == "cli.fresh" && len(t) == 5:
+		return cliFresh(i64(t[1]), i64(t[2]), i64(t[3]), i64(t[4]))
 	}
 	return "bad-op"
 }
@@ -216,6 +218,7 @@ func gen(c *lib.Ctx) {
 			c.Dof("t64.after %d %d %d %d", a.Seconds, a.Fraction, b.Seconds, b.Fraction)
 		}
 	}
+	genClient(c, r.Fork("client"))
 }
 
 func main() { lib.Main(exec, gen) }
